@@ -32,7 +32,10 @@ class Driver:
     def start(self):
         self.proc = subprocess.Popen([BIN], stdin=subprocess.PIPE, stdout=subprocess.PIPE, text=True, bufsize=1)
 
+    n_calls = 0
+
     def call(self, op, *args):
+        self.n_calls += 1
         if self.proc is None or self.proc.poll() is not None:
             self.start()
         self.proc.stdin.write("\t".join([op] + list(args)) + "\n")
@@ -106,6 +109,36 @@ def search_u256_from_str(drv, rng, budget):
         if got.split(" ")[0] != exp.split(" ")[0] or (exp.startswith("ok") and got != exp):
             return {"call": "<U256 as FromStr>::from_str", "input": s, "expected": exp, "observed": got}
     return None
+
+
+def run_bounded(names, seed, budget=600, drv=None):
+    """Bounded stand-ins (never counted as proved): run the named searchers against the real crate.
+    Returns (results, build_error). results: list of dicts {searcher, witness|None, cases, wall_s, bound}."""
+    import inspect
+    own = drv is None
+    if own:
+        drv = Driver()
+        if not drv.build():
+            return [], "replay driver does not build against the current tree:\n" + drv.build_log
+    out = []
+    try:
+        for nm in names:
+            f = SEARCHERS[nm]
+            t0 = time.time()
+            drv.n_calls = 0
+            try:
+                if "obligation" in inspect.signature(f).parameters:
+                    w = f(drv, random.Random(seed), budget, obligation="")
+                else:
+                    w = f(drv, random.Random(seed), budget)
+            except Exception as e:     # a broken searcher must never raise an alarm
+                out.append({"searcher": nm, "witness": None, "error": repr(e), "cases": drv.n_calls, "wall_s": round(time.time() - t0, 2), "bound": (f.__doc__ or "").strip()})
+                continue
+            out.append({"searcher": nm, "witness": w, "cases": drv.n_calls, "wall_s": round(time.time() - t0, 2), "bound": (f.__doc__ or "").strip()})
+    finally:
+        if own:
+            drv.close()
+    return out, None
 
 
 def find_witness(obligation, seed, budget=3000):
@@ -210,18 +243,21 @@ def spec_for_while(width, init, exit_at):
     return ("Right", acc)
 
 
-def for_while_program(width, init, exit_at):
+def for_while_program(width, init, exit_at, panic_after_exit=False):
     side, val = spec_for_while(width, init, exit_at)
+    # with panic_after_exit the body fails when it is evaluated for a counter beyond the exit point:
+    # "returns the first Left WITHOUT evaluating any later iteration"
+    guard = "    assert!(jet::le_32(i32, ctx));\n" if panic_after_exit else ""
     body = """
 fn body(acc: u32, ctx: u32, i: u%d) -> Either<u32, u32> {
     let i32: u32 = to32_%d(i);
-    let mixed: u32 = mix(acc, i32);
+%s    let mixed: u32 = mix(acc, i32);
     match jet::eq_32(i32, ctx) {
         true => Left(mixed),
         false => Right(mixed),
     }
 }
-""" % (width, width)
+""" % (width, width, guard)
     if side == "Left":
         arms = "        Left(b: u32) => assert!(jet::eq_32(b, %d)),\n        Right(a: u32) => panic!(),\n" % val
     else:
@@ -232,23 +268,26 @@ fn body(acc: u32, ctx: u32, i: u%d) -> Either<u32, u32> {
 
 @searcher("forwhile/for_while")
 def search_for_while(drv, rng, budget):
-    """counter widths 1, 2, 4, 8 (16 with VERIF_TIER=thorough): every exit iteration for the small widths, sampled for 8/16, and no exit"""
-    widths = [1, 2, 4, 8] + ([16] if os.environ.get("VERIF_TIER") == "thorough" else [])
+    """counter widths 1, 2, 4, 8: every exit iteration for widths <= 4, sampled for 8, and no exit; width 16: exits at 0,1,3,255,256,257 (no-exit run only with VERIF_TIER=thorough); each also with a body that fails after the exit point"""
+    widths = [1, 2, 4, 8, 16]
     n = 0
     for w in widths:
         top = 2 ** w
         exits = list(range(top)) if w <= 4 else sorted(set([0, 1, 2, top // 2 - 1, top // 2, top - 2, top - 1] + [rng.randrange(top) for _ in range(4 if w == 8 else 1)]))
         if w == 16:
-            exits = [0, 1, 255, 256, 257]
-        for e in exits + [2 ** 20]:
+            exits = [0, 1, 3, 255, 256, 257]
+        for e in exits + ([2 ** 20] if (w < 16 or os.environ.get("VERIF_TIER") == "thorough") else []):
             init = rng.randrange(2 ** 32)
-            src = for_while_program(w, init, e)
-            got = drv.call("run", hx(src), hx(""), hx(""), "0")
-            n += 1
-            if got != "ok":
-                return {"call": "for_while::<body> with a u%d counter, exit at iteration %s" % (w, e if e < top else "never"),
-                        "input": {"width": w, "init": init, "exit_at": e, "program": src},
-                        "op": ["run", hx(src), hx(""), hx(""), "0"], "expected": "ok", "observed": got}
+            for pae in (False, True):
+                if pae and e >= top:
+                    continue
+                src = for_while_program(w, init, e, pae)
+                got = drv.call("run", hx(src), hx(""), hx(""), "0")
+                n += 1
+                if got != "ok":
+                    return {"call": "for_while::<body> with a u%d counter, exit at iteration %s%s" % (w, e if e < top else "never", ", body fails after the exit point" if pae else ""),
+                            "input": {"width": w, "init": init, "exit_at": e, "body_fails_after_exit": pae, "program": src},
+                            "op": ["run", hx(src), hx(""), hx(""), "0"], "expected": "ok", "observed": got}
     return None
 
 
@@ -281,6 +320,21 @@ class ScopeGen:
             rr, rv = self.expr(dict(env), depth - 1)
             cond = self.rng.random() < 0.5
             return "match %s { true => %s, false => %s, }" % ("true" if cond else "false", l, rr), (lv if cond else rv)
+        if depth > 0 and r < 0.93:
+            # match on an Either: each arm binds a name (possibly shadowing an outer one, possibly at another type);
+            # only the taken arm's binding exists, and only inside that arm
+            x = self.rng.choice(self.names)
+            y = self.rng.choice(self.names)      # the two arms may bind different names
+            left = self.rng.random() < 0.5
+            pay = self.fresh_lit()
+            envl = dict(env); envr = dict(env)
+            envl.pop(x, None)          # x: u16 inside the left arm: not usable as u8 there
+            envr[y] = pay              # y: u8 inside the right arm (its value only matters when that arm is taken)
+            l, lv = self.expr(envl, depth - 1)
+            rr, rv = self.expr(envr, depth - 1)
+            scrut = ("Left(%d)" % (pay * 3)) if left else ("Right(%d)" % pay)
+            txt = "match { let e: Either<u16, u8> = %s; e } { Left(%s: u16) => %s, Right(%s: u8) => %s, }" % (scrut, x, l, y, rr)
+            return txt, (lv if left else rv)
         v = self.fresh_lit()
         return str(v), v
 
